@@ -125,20 +125,7 @@ func (e *expr) String() string {
 }
 
 func (e *expr) build(bases []storage.ReadWriteBucket) storage.ReadBucket {
-	switch e.kind {
-	case "b":
-		return bases[e.base]
-	case "pre":
-		return storage.MapReadBucket(e.a.build(bases), storage.MapOnPrefix(e.prefix))
-	case "filt":
-		return storage.FilterReadBucket(e.a.build(bases), e.m)
-	case "multi":
-		return storage.MultiReadBucket(e.a.build(bases), e.b.build(bases))
-	case "strip":
-		return storage.StripReadBucketExternalPaths(e.a.build(bases))
-	default:
-		return storage.OverlayReadBucket(e.a.build(bases), e.b.build(bases))
-	}
+	return e.buildR(toRead(bases), false)
 }
 
 func genMatcher(r *hx.Rand) (string, storage.Matcher) {
@@ -534,8 +521,8 @@ func runCase(run *hx.Run, idx int, r *hx.Rand, tmpRoot string) {
 		}
 		// oracle: union must report a path present in two members
 		if o.kind == 'g' && e.kind == "multi" && strings.HasPrefix(res, "ok") {
-			ra := e.a.build(bases)
-			rb := e.b.build(bases)
+			ra := e.a.buildR(toRead(bases), false)
+			rb := e.b.buildR(toRead(bases), false)
 			_, ea := ra.Stat(ctx, o.path)
 			_, eb := rb.Stat(ctx, o.path)
 			if ea == nil && eb == nil {
@@ -543,7 +530,8 @@ func runCase(run *hx.Run, idx int, r *hx.Rand, tmpRoot string) {
 			}
 		}
 	}
-	checkStrip(run, e, bases, fail)
+	checkStrip(run, e, toRead(bases), fail)
+	checkUnionNodes(run, e, toRead(bases), fail)
 	var sb strings.Builder
 	sb.WriteString(strings.Join(results, ";"))
 	for i := range bases {
@@ -703,11 +691,11 @@ func (e *expr) stripNodes(out *[]*expr) {
 // checkStrip is the oracle for storage.StripReadBucketExternalPaths: for every strip node, Walk,
 // Stat and Get give the same paths/contents/errors as the wrapped bucket, and every object
 // reports ExternalPath == Path.
-func checkStrip(run *hx.Run, e *expr, bases []storage.ReadWriteBucket, fail func(class, what string)) {
+func checkStrip(run *hx.Run, e *expr, bases []storage.ReadBucket, fail func(class, what string)) {
 	var nodes []*expr
 	e.stripNodes(&nodes)
 	for _, n := range nodes {
-		inner := n.a.build(bases)
+		inner := n.a.buildR(bases, false)
 		outer := storage.StripReadBucketExternalPaths(inner)
 		type seen struct{ path, ext string }
 		var ip, op []seen
@@ -1212,12 +1200,21 @@ func main() {
 	tmpRoot, err := os.MkdirTemp("", "verif-c14-")
 	must(err)
 	defer os.RemoveAll(tmpRoot)
-	n := run.N(1500, 40000)
+	n := run.N(1500, 20000) // thorough: 16 ms per history case (1 MiB objects, disk bases, full re-walk after every op); 40000 took 26 min
 	for i := 0; i < n; i++ {
 		if run.Only >= 0 && run.Only != i {
 			continue
 		}
 		guarded(run, fmt.Sprintf("history case %d", i), func() { os.RemoveAll(tmpRoot) }, func() { runCase(run, i, r.Fork(uint64(i)), tmpRoot) })
+	}
+	// union / overlay cases; --only 1000000+i regenerates union case i alone
+	ru := r.Fork(1 << 42)
+	nu := run.N(700, 20000)
+	for i := 0; i < nu; i++ {
+		if run.Only >= 0 && run.Only != unionBase+i {
+			continue
+		}
+		guarded(run, fmt.Sprintf("union case %d", i), func() { os.RemoveAll(tmpRoot) }, func() { runUnion(run, i, ru.Fork(uint64(i)), tmpRoot) })
 	}
 	if run.Only < 0 {
 		ra := r.Fork(1 << 40)
